@@ -180,7 +180,7 @@ class Checker:
         r = self.drv.call("c15.spec", tree=ex)
         spec = r["lines"]
         self.last_wf = (r["wf_unquote"], r["wf_kinds"], r["wf_posonly"], r["wf_alias"], r["wf_stages4"], r["wf_stages6"],
-                        r["stage6_eq_tweak"])
+                        r["stage6_eq_tweak"], r["repr_is_dumpNoCtx"])
         return tree, impl, model, spec
 
     def fails(self, src):
@@ -219,6 +219,12 @@ class Checker:
         ctx.dist("hypothesis wfStages4 (first four passes) " + ("holds" if self.last_wf[4] else "FAILS") + " on the real tree")
         ctx.dist("hypothesis wfStages6 (Tree.WF of C15_tweaks_full) " + ("holds" if self.last_wf[5] else "FAILS") + " on the real tree")
         ctx.dist("stage6 = tweak (staged tweaks vs one-shot specification) " + ("holds" if self.last_wf[6] else "FAILS") + " on the real tree")
+        ctx.dist("hypothesis reprsAreDumps (exported hash source = dumpNoCtx of the node) " +
+                 ("holds" if self.last_wf[7] else "FAILS") + " on the real tree")
+        if not self.last_wf[7]:
+            ctx.broken.append("corr:dumpNoCtx-vs-exported-repr")
+            if len(ctx.notes) < 5:
+                ctx.notes.append("the exported hash source of some expression is not dumpNoCtx of its node: " + src[:300])
         if not self.last_wf[5] and not (fe.quirk_features(tree) - {"async-def", "bytes-repr-double-quoted"}):
             # Tree.WF fails although the program has none of the adversarial literals: a lead worth looking at
             ctx.dist("LEAD: wfStages6 fails on a non-adversarial tree")
@@ -511,14 +517,16 @@ def run(ctx):
     ctx.cov["proved_summary"] = [
         "C15_preorder_once (dump = pre-order enumeration; every node, list, scalar exactly once under its address and names)",
         "C15_path_code / C15_path_nesting (the `_pos` path is a prefix-free code; prefix ⇔ nesting)",
-        "C15_hash (same `_hash` ⇔ same context-free repr within one flattening)",
+        "C15_hash (same `_hash` ⇔ same context-free repr within one flattening), C15_hash_structural (same expression up "
+        "to load/store context ⇒ same `_hash`, for hash sources that are the structural dump dumpNoCtx)",
         "C15_stateless / C15_sequence / C15_reset_needed (the reset step makes the result independent of the factory state)",
         "C15_tweak_*_partial, C15_tweaks_full, C15_flatten_tweaked (the six passes are tree-level tweaks; composed; on flatten_ast)",
         "C15_escape_at_dump, C15_escapePos_no_pos, C15_escaped_value_not_poslike (escaped terminal values)",
     ]
     ctx.cov["exercised_only"] = [
-        "that the exported repr of an expression is equal for two expressions iff they are the same expression up to "
-        "load/store context (checked by c15.spec: hashes recomputed from a structural canonical form)",
+        "the converse of C15_hash_structural: two expressions that differ (up to load/store context) get different hashes — "
+        "it needs the injectivity of Python's repr-based dump text (checked by c15.spec: hashes recomputed from a "
+        "length-prefixed canonical form); that the exported hash source is dumpNoCtx of the node is checked on every real tree",
         "ast.parse itself (tree and line numbers are inputs of the model)",
         "that the staged tweaks `stage6` equal the one-shot specification `tweak` (kinds by real kind): compared by the "
         "driver on every real tree (stage6_eq_tweak), and c15.spec = dump of `tweak`",
